@@ -162,7 +162,9 @@ def m_table():
     import m_nuts
     import m_hmc
     import m_run
+    import m_io
     return {
+        "C17": [("c17_layout", m_io.c17_layout)],
         "C08": [("c08_nuts_streams", m_nuts.c08_nuts_streams)],
         "C09": [("c09_runner", m_run.c09_runner), ("c09_hmc_run", m_run.c09_hmc_run), ("c09_nuts_run", m_run.c09_nuts_run)],
         "C10": [("c10_run_chain_progress", m_run.c10_run_chain_progress), ("c10_precision", m_run.c10_precision),
